@@ -70,7 +70,7 @@ theorem BV.direct {m x : M} (h : BV m x) {rows : List Row} (hr : ∀ r ∈ rows,
 theorem BV.writeGeneric {m x : M} (h : BV m x) (cfg : Cfg) (t r : Str) : BV m (writeGeneric cfg x t r) := by
   unfold Machine.writeGeneric
   split
-  · exact h
+  · exact h.of_tl rfl rfl
   · refine (h.direct (rows := _) ?_).of_tl rfl rfl
     intro row hrow
     rcases List.mem_append.mp hrow with h1 | h1
